@@ -1777,10 +1777,22 @@ class MMSEIASolver(IterativeIASolverBaseClass):
                     # If we are not done yet then we need to perform the
                     # bisection method to find the best mu value between
                     # min_mu_i and max_mu_i
-                    mu_i = optimize.newton(  # pylint: disable= E1101
+                    # The norm of Vi decreases monotonically with mu (for
+                    # mu >= 0) and it is never larger than
+                    # norm(Hii_herm_U) / mu. Therefore, the root is between
+                    # zero and max_mu_i. A bracketing method always finds
+                    # it, while the secant iterations of optimize.newton
+                    # may diverge, stop at a negative value or stop where
+                    # the cost is flat.
+                    max_mu_i = (np.linalg.norm(Hii_herm_U, 'fro') /
+                                np.sqrt(self.P[i]))
+                    mu_i = optimize.brentq(  # pylint: disable= E1101
                         func,
                         min_mu_i,
+                        max_mu_i,
                         args=(sum_term, Hii_herm_U, self.P[i]),
+                        xtol=1e-14 * max_mu_i,
+                        rtol=1e-12,
                         maxiter=200)
                 except RuntimeError:  # pragma: nocover
                     # We get a RuntimeError if the maximum number of
@@ -1817,6 +1829,11 @@ class MMSEIASolver(IterativeIASolverBaseClass):
 
                 # Now that we have the best value for mu_i, lets calculate Vi
                 Vi = self._calc_Vi_for_a_given_mu(sum_term, mu_i, Hii_herm_U)
+                # The root is only known up to the tolerance of the search:
+                # make sure the power constraint is respected
+                power_Vi = np.linalg.norm(Vi, 'fro')**2
+                if power_Vi > self.P[i]:
+                    Vi = Vi * np.sqrt(self.P[i] / power_Vi)
                 # Vi = self._calc_Vi_for_a_given_mu2(
                 #     inv_sum_term, mu_i, Hii_herm_U)
 
